@@ -77,11 +77,24 @@ def run_replay(pid, path):
         # of cases - and see whether the same mechanism fires again.
         tier = rec.get('tier', 'quick')
         wall = float(mod.PLAN[tier]['wall']) * 2
-        c2 = ctxmod.Ctx(pid, tier, rec.get('seed', 0), int(rec['shard']), int(rec['nshards']), wall)
-        print('re-executing shard %s/%s of the recorded %s run (seed %s) ...' % (rec['shard'], rec['nshards'], tier, rec.get('seed', 0)))
-        mod.run(c2)
-        if rec.get('key') in c2.violations and (pid, rec['key']) not in known:
-            n, ws = c2.violations[rec['key']]
+        print('re-executing shard %s/%s of the recorded %s run (seed %s) in a fresh process ...' % (rec['shard'], rec['nshards'], tier, rec.get('seed', 0)))
+        tmp = tempfile.mkdtemp(prefix='pv-replay-')
+        out = os.path.join(tmp, 'shard.pkl')
+        envv = dict(os.environ, PYTHONHASHSEED='0', PYTHONPATH=HERE + os.pathsep + os.environ.get('PYTHONPATH', ''))
+        try:
+            subprocess.run([sys.executable, '-m', 'pv.main', '--worker', pid, tier, str(rec.get('seed', 0)), str(rec['shard']),
+                            str(rec['nshards']), str(wall), out], cwd=HERE, env=envv, stdout=subprocess.DEVNULL, stderr=subprocess.DEVNULL,
+                           timeout=wall * 3 + 120)
+            with open(out, 'rb') as f:
+                again = pickle.load(f)
+        except Exception as e:
+            print('INCONCLUSIVE property=%s reason=re-execution of the recorded shard failed: %s' % (pid, repr(e)[:200]))
+            return 2
+        finally:
+            import shutil
+            shutil.rmtree(tmp, ignore_errors=True)
+        if rec.get('key') in again['violations'] and (pid, rec['key']) not in known:
+            n, ws = again['violations'][rec['key']]
             print('replayed in context: key=%s observed=%d detail=%s' % (rec['key'], n, json.dumps(ws[0]['detail'], default=repr)[:2000]))
             print('VIOLATION property=%s replay=%s' % (pid, os.path.abspath(path)))
             return 1
